@@ -74,4 +74,70 @@ def WFValueSafe (endRe : Re) (tag pre blanks v trail le : Text) : Bool :=
   WFShape tag pre blanks v trail le && endOk endRe (trail ++ le) && tailSafe endRe v &&
   isStripped v && frameFree pre v
 
+/-! ### copyright notices in a text of lines -/
+
+/-- none of the mandatory heads of the three copyright patterns (`SPDX-FileCopyrightText:` /
+    `SPDX-SnippetCopyrightText:`, `Copyright`, the copyright sign) occurs anywhere in the line: a purely
+    syntactic reason for a line to hold no notice -/
+def headFree : Text → Bool
+  | [] => true
+  | c :: cs =>
+    (eatHead .spdx (c :: cs)).isNone && (eatHead .word (c :: cs)).isNone && (eatHead .sign (c :: cs)).isNone &&
+    headFree cs
+
+/-- `WFHolder` without its END part: what the holder may begin with -/
+def holderHead (h : Text) : Bool :=
+  match h with
+  | [] => false
+  | c :: _ =>
+    !isReSpace c && !isReDigit c && c != '-' && c != '(' && c != Char.ofNat 0xa9 &&
+    !("Copyright".toList).isPrefixOf h
+
+/-- `WFNotice` with purely syntactic END conditions: the trail is a sequence of listed terminators and blanks
+    (`pieceOk`), the holder is tail-safe (no tail of it can begin a run of terminators) -/
+def WFNoticeSyn (endRe : Re) (x : Text × CPat × Text) (y : YearForm) (h pre trail : Text) (pieces : List Text) : Bool :=
+  (match starBody endRe with
+   | some body => pieces.all (pieceOk body)
+   | none => false) &&
+  trail == pieces.flatten &&
+  y.wf && holderHead h && noNewline h && tailSafe endRe h &&
+  !("Copyright".toList).isPrefixOf (h ++ trail) &&
+  noNoticeStart endRe x.2.1 pre (builtLine x.1 y h ++ trail) &&
+  earlierNone endRe x.2.1 (pre ++ builtLine x.1 y h ++ trail)
+
+/-- a line of a text as the copyright reader sees it -/
+inductive CprLine where
+  | other (l : Text)                                                  -- any line
+  | notice (x : Text × CPat × Text) (y : YearForm) (h pre trail : Text)   -- `pre ++ notice ++ trail`
+
+def CprLine.text : CprLine → Text
+  | .other l => l
+  | .notice x y h pre trail => pre ++ builtLine x.1 y h ++ trail
+
+/-- the notice planted in the line -/
+def CprLine.planted : CprLine → Option Text
+  | .other _ => none
+  | .notice x y h _ _ => some (builtLine x.1 y h)
+
+/-- what the line contributes: the planted notice; for any other line whatever the reader finds in it -/
+def CprLine.found (endRe : Re) : CprLine → Option Text
+  | .other l => (searchLineWith endRe l).map fun m => strip m.whole
+  | .notice x y h _ _ => some (builtLine x.1 y h)
+
+/-- the hypotheses, line by line: no line boundary of `str.splitlines` inside a line; a notice line is
+    `pre ++ notice ++ trail` satisfying `WFNotice` (hypotheses of `C02_copyright_exact_partial`) with one of the
+    generated prefixes and a notice without outer white space -/
+def CprLine.ok (endRe : Re) : CprLine → Bool
+  | .other l => noBreakB l
+  | .notice x y h pre trail =>
+    decide (x ∈ prefixShapes) && WFNotice endRe x y h pre trail && isStripped (builtLine x.1 y h) &&
+    noBreakB (pre ++ builtLine x.1 y h ++ trail)
+
+/-- the other lines hold no notice -/
+def CprLine.quietOther (endRe : Re) : CprLine → Bool
+  | .other l => noticeFree endRe l
+  | .notice .. => true
+
+def cprTextOf (ls : List CprLine) : Text := join ['\n'] (ls.map (·.text))
+
 end Spec
